@@ -64,6 +64,7 @@ def sync_program(draw):
                 steps.append({"op": "MKCOL", "fe": fe, "coll": "c1", "kind": "mkcalendar"})
         else:
             steps.append({"op": "RESTART"})
+        gen_prog.wrap_locked(draw, steps, 9)  # a refused write changes neither the token nor what is reported
     # query every recorded token at the end
     for c in sorted(set(colls)):
         for k in range(draw(st.integers(2, 6))):
